@@ -8,6 +8,7 @@ matrix R (rows conj(vjp(conj g)) over the cotangent basis) and forward-mode matr
 basis) from autograd, plus structures, primal values, tracer leaks, input integrity, linearity.  Differences are logged
 as integers D = round(diff / max(1, |W|) * 2^20) (only non-zero entries), which spec/trace/TraceContract.tla judges.
 """
+import hashlib
 import json
 import math
 import sys
@@ -237,6 +238,7 @@ def observe(cfg):
         v["struct"] = st if st is not None else struct(vspace(x).zeros())
         if rows is not None:
             RR = onp.array(rows, dtype=float).reshape(m, n)
+            v["digest"] = hashlib.sha1(onp.ascontiguousarray(RR).tobytes()).hexdigest()[:16]
             v["bad"], v["nbad"] = dmat(RR, W, ts)
         elif rows is None:
             v["bad"], v["nbad"] = [[0, 0, 2 ** 30]], 1
@@ -289,6 +291,7 @@ def observe(cfg):
         j["struct"] = st if st is not None else struct(y0)
         if cols is not None:
             FR = onp.array(cols, dtype=float).reshape(n, m).T
+            j["digest"] = hashlib.sha1(onp.ascontiguousarray(FR).tobytes()).hexdigest()[:16]
             j["bad"], j["nbad"] = dmat(FR, W, ts)
         elif cols is None:
             j["bad"], j["nbad"] = [[0, 0, 2 ** 30]], 1
